@@ -326,9 +326,18 @@ pub fn emit(out: &mut Out, cfg: &Cfg, pairs: &[Pair]) {
     if cfg.want("C13") && func {
         let verdict: Result<(), String> = (|| {
             // the property speaks of a function term that is itself an operand
-            let top = |t: &Unifiable| -> Unifiable { if let Unifiable::SFunction{..} = t { eval_funcs(t) } else { t.clone() } };
+            // (its arguments taken with the bindings made so far)
+            let top = |t: &Unifiable| -> Unifiable {
+                if let Unifiable::SFunction{name, terms} = t {
+                    match catch_unwind(AssertUnwindSafe(|| terms.iter().map(|x| x.replace_variables(prior)).collect::<Vec<Unifiable>>())) {
+                        Ok(g) => eval_funcs(&Unifiable::SFunction{name: name.clone(), terms: g}),
+                        Err(_) => t.clone(),
+                    }
+                } else { t.clone() }
+            };
             let va = top(a); let vb = top(b);
             if refuni::has_func(&va) || refuni::has_func(&vb) { return Ok(()); } // nested / not evaluable: outside the claim
+            if refuni::has_nan(&va) || refuni::has_nan(&vb) { return Ok(()); } // the value is NaN, equal to nothing, itself included
             let want = unify_once(&va, &vb, prior);
             let got = unify_once(a, b, prior);
             match (&want, &got) {
@@ -381,9 +390,40 @@ pub fn gen_case(r: &mut Rng, u: &Universe) -> Vec<Pair> {
     pairs
 }
 
+/// C13 with the arguments of the function reached through variables: a number bound to a variable, a chain of one to
+/// three aliases, then a function term over the last alias against its value / another number / an unbound variable /
+/// another function term, in both orders (seeded change C13r9: a shortcut that looked one binding deep)
+pub fn gen_case_funcvars(r: &mut Rng, u: &Universe) -> Vec<Pair> {
+    let mut pairs: Vec<Pair> = vec![];
+    let val = gen_num(r);
+    let links = 1 + r.below(3.min(u.nvars - 1));
+    let flip = |r: &mut Rng, a: Unifiable, b: Unifiable| -> Pair { if r.chance(1, 2) { (a, b) } else { (b, a) } };
+    let p = flip(r, var(1), val.clone()); pairs.push(p);
+    for i in 2..=links { let p = flip(r, var(i), var(i - 1)); pairs.push(p); }
+    let name = *r.pick(&["add", "subtract", "multiply", "divide"]);
+    let other_arg = { let mut x = gen_num(r); if name == "divide" { if let SInteger(0) = x { x = SInteger(2); } } x };
+    let (args, ground) = match r.below(3) {
+        0 => (vec![var(links), other_arg.clone()], vec![val.clone(), other_arg]),
+        1 => (vec![other_arg.clone(), var(links)], vec![other_arg, val.clone()]),
+        _ => (vec![var(links), other_arg.clone(), var(1)], vec![val.clone(), other_arg, val.clone()]),
+    };
+    let f = Unifiable::SFunction{name: name.to_string(), terms: args};
+    let other = match r.below(5) {
+        0 | 1 => match crate::refarith::eval_ref(name, &ground) { Some(v) => v, None => gen_num(r) },
+        2 => gen_num(r),
+        3 => var(u.nvars),
+        _ => gen_func(r, u, 0),
+    };
+    let p = flip(r, f, other); pairs.push(p);
+    pairs
+}
+
 pub fn run_random(out: &mut Out, cfg: &Cfg, u: &Universe, seed: u64, n: usize) {
     let mut r = Rng::new(seed);
-    for _ in 0..n { let c = gen_case(&mut r, u); emit(out, cfg, &c); }
+    for i in 0..n {
+        let c = if u.func && i % 4 == 3 { gen_case_funcvars(&mut r, u) } else { gen_case(&mut r, u) };
+        emit(out, cfg, &c);
+    }
 }
 
 /// the small universe U used for the bounded-exhaustive sweep
